@@ -25,14 +25,22 @@ EXTENDS Naturals, Sequences, FiniteSets
 
 VARIABLES proj,     \* projection after the last call
           os,       \* one-shot state after the last call
-          cfg       \* [arch, em, hk, att] of the running execution (constant within one execution)
+          cfg,      \* [arch, em, hk, att, vi] of the running execution (constant within one execution)
+          pend      \* Builder with kValidateIntermediate: error with which a strictly validating Assembler refused a
+                    \* request that the Builder accepted (0 = none so far)
 
-evars == <<proj, os, cfg>>
+evars == <<proj, os, cfg, pend>>
 
 OsClear == <<0, 0, 0, 0>>
 
+(* nb = bound labels; gf = fixups on the holder's global list (detached from their label: cross-section or        *)
+(* out-of-range references); gb = how many of those carry no valid label id / section id; gd = digest of the list *)
 EmptyProj == [ss |-> <<>>, sd |-> <<>>, nl |-> 0, nf |-> 0, nr |-> 0, na |-> 0,
-              nn |-> 0, cu |-> 0, cs |-> 0, off |-> 0, nv |-> 0]
+              nn |-> 0, cu |-> 0, cs |-> 0, off |-> 0, nv |-> 0, nb |-> 0, gf |-> 0, gb |-> 0, gd |-> 0]
+
+(* A detached fixup always names its label (fixup.h): the consumers of the holder - resolve_cross_section_fixups, *)
+(* JitRuntime::add - index the label table with it.                                                              *)
+FixupsWellFormed(np) == np.gb = 0
 
 InstKinds == {"inst"}
 IsInst(k) == k \in InstKinds
@@ -66,6 +74,7 @@ OsKeptOrCleared(osin, nos) == \A i \in 1 .. 4 : nos[i] \in {0, osin[i]}
 UnchangedFor(k, np) ==
   IF k = "bind"
     THEN /\ np.ss = proj.ss /\ Len(np.sd) = Len(proj.sd) /\ np.nf <= proj.nf
+         /\ np.nb \in {proj.nb, proj.nb + 1} /\ np.gf >= proj.gf
          /\ np.nl = proj.nl /\ np.nr = proj.nr /\ np.na = proj.na /\ np.nn = proj.nn /\ np.cu = proj.cu
          /\ np.cs = proj.cs /\ np.off = proj.off /\ np.nv = proj.nv
     ELSE np = proj
@@ -102,11 +111,14 @@ OkInstAsm(np) ==
   /\ np.nr \in {proj.nr, proj.nr + 1}
   /\ np.na \in {proj.na, proj.na + 1}
   /\ np.nn = proj.nn /\ np.cu = proj.cu /\ np.nv = proj.nv
+  /\ np.nb = proj.nb
+  /\ np.gf \in {proj.gf, proj.gf + 1}     \* a reference to a label bound in ANOTHER section goes straight to the global list
 
 OkInstNode(np) ==           \* Builder / Compiler: exactly one node after the cursor, nothing assembled yet
   /\ np.ss = proj.ss /\ np.sd = proj.sd
   /\ np.nl = proj.nl /\ np.nf = proj.nf /\ np.nr = proj.nr /\ np.na = proj.na
   /\ np.nn = proj.nn + 1 /\ np.cu = proj.cu + 1
+  /\ np.nb = proj.nb /\ np.gf = proj.gf /\ np.gd = proj.gd
 
 OkOther(np) ==
   /\ Grown(proj.ss, np.ss) /\ Len(np.ss) = Len(np.sd)
@@ -125,18 +137,28 @@ OkOutcome(k, hc, th, np) ==
 (* ---------------------------------------------------------------------------- *)
 FinalizeOutcome(r, hc, th, np) ==
   /\ Grown(proj.ss, np.ss)
+  /\ (r = 0 => pend = 0)       \* accepted under validation, refused by the strict Assembler, yet serialised "Ok" = garbage
   /\ IF r = 0 THEN HandlerOk(hc, th)
               ELSE HandlerErr(cfg.hk, FALSE, r, hc, th)
 
 (* ---------------------------------------------------------------------------- *)
 (* The one action.                                                              *)
 (* ---------------------------------------------------------------------------- *)
-Call(k, r, hc, th, osin, np, nos) ==
+(* A plain Builder (not a Compiler) has no virtual registers: with kValidateIntermediate on, a request whose register  *)
+(* operand / memory base / memory index carries a virtual id (>= Operand::kVirtIdMin) must be refused.  vr = 1 iff   *)
+(* the request carries one.  (Without validation the Builder is documented to accept anything until finalize.)       *)
+(* x86 only: the AArch64 back end has no operand validator (a64instapi.cpp validate() accepts everything).        *)
+VirtRule(k, r, vr) == (IsInst(k) /\ cfg.em = "builder" /\ cfg.arch # "a64" /\ cfg.vi /\ vr = 1) => r # 0
+
+Call(k, r, hc, th, osin, np, nos, vr, sh) ==
   /\ IF k = "finalize" THEN FinalizeOutcome(r, hc, th, np)
      ELSE IF r = 0 THEN OkOutcome(k, hc, th, np)
      ELSE ErrOutcome(k, r, hc, th, osin, np, nos)
+  /\ FixupsWellFormed(np)
+  /\ VirtRule(k, r, vr)
   /\ proj' = np
   /\ os' = nos
+  /\ pend' = IF IsInst(k) /\ r = 0 /\ sh # 0 /\ pend = 0 THEN sh ELSE pend
   /\ UNCHANGED cfg
 
 (* FreshEquivalent: a fixed valid probe program, emitted on the used emitter,   *)
@@ -145,9 +167,23 @@ Call(k, r, hc, th, osin, np, nos) ==
 (* their count, labels / relocations / fixups created, first error).            *)
 Probe(used, fresh, np, nos) ==
   /\ used = fresh
+  /\ FixupsWellFormed(np)
   /\ proj' = np
   /\ os' = nos
-  /\ UNCHANGED cfg
+  /\ UNCHANGED <<cfg, pend>>
 
-CInit == proj = EmptyProj /\ os = OsClear /\ cfg = [arch |-> "x64", em |-> "asm", hk |-> "none", att |-> TRUE]
+(* Finishing phase: the consumers of the holder state (flatten, resolve_cross_section_fixups, relocate_to_base or *)
+(* JitRuntime::add + release) ran to completion on the used holder - a crash never reaches this event - and,     *)
+(* when every refused call had left the projection unchanged (cmp), produced exactly what they produce on the    *)
+(* reference execution in which the refused calls are simply omitted: same result codes, unresolved count,       *)
+(* labels, fixup list, section sizes and bytes.                                                                   *)
+Finish(used, ref, cmp, np, nos) ==
+  /\ (cmp => used = ref)
+  /\ FixupsWellFormed(np)
+  /\ proj' = np
+  /\ os' = nos
+  /\ UNCHANGED <<cfg, pend>>
+
+CInit == proj = EmptyProj /\ os = OsClear /\ pend = 0
+         /\ cfg = [arch |-> "x64", em |-> "asm", hk |-> "none", att |-> TRUE, vi |-> TRUE]
 =============================================================================
